@@ -305,12 +305,28 @@ func effectsOf(p *engine.Prog, fn *ssa.Function, blocks map[*ssa.BasicBlock]bool
 			if strings.Contains(ph.Comment, "rangeindex") || strings.Contains(ph.Comment, "rangeiter") {
 				continue
 			}
-			kind := "other"
+			// combine the kinds of all in-loop edges (an edge that carries the phi itself leaves the value
+			// unchanged on that path); independent of the order in which the builder lists the edges
+			kinds := map[string]bool{}
 			for i, e := range ph.Edges {
 				if !blocks[header.Preds[i]] {
 					continue
 				}
-				kind = carriedKind(e, ph)
+				if e == ssa.Value(ph) {
+					continue
+				}
+				if k := carriedKind(e, ph); k != "same" {
+					kinds[k] = true
+				}
+			}
+			kind := "same"
+			if ks := sortedKeys(kinds); len(ks) == 1 {
+				kind = ks[0]
+			} else if len(ks) > 1 {
+				kind = "mixed(" + strings.Join(ks, ",") + ")"
+			}
+			if kind == "same" {
+				continue
 			}
 			eff["carried:"+kind] = true
 		}
